@@ -58,6 +58,12 @@ such case is a unit, an obligation or a scenario that now exists:
   own wiring".  C20f: drift and no scenario -> bounded deferred unit also under C20 + `queue` scenario "circular deferred queue, occurrence
   re-deferred while dispatched".  C09f: drift -> a continuation through `enqueue_event` is an obligation failure.  C12f caught by the row
   contract; the `exc` family now runs all four switch policies and guard-less rows (544 scenarios) and gives the witness.  C02f C07f caught at once.  C10f: drift and no scenario -> `queue` scenario "completion in the second region".
+* g-wave (2 properties, last session): C09g (exit point `operator=` copies the forwarding callback) caught at once by the `copy` family
+  scenario "copy takes the exit point of a nested submachine" under C09 and C15 (the wrapper's special members are outside every unit:
+  rule 10.3(c)).  C14g was MISSED at first: the edited body (`row2_action_helper::call_helper`) IS under contract, but the added `auto` local
+  made the extracted unit fail to compile as C (undecided, exit 2) and no `fronts` scenario looked at the *object* a row2 behaviour runs on
+  (the traces only log which behaviour ran) -> scenario "row2 behaviours run on the machine's own state objects" (addresses of the called
+  objects and data written by the actions); the extraction drift remains reported as undecided next to the violation.
 * type-level changes (no contract reaches them; the native families decide - since the uncovered-code trigger of 10.3(c) also in the quick tier): C17b, C17c, C13b, C07c, C18c, C06d.
 
 ''' % n
